@@ -202,12 +202,25 @@ func FailureHandling(t *Truth) *Report {
 		if deadline.After(r.End) || deadline.After(ep.To) {
 			continue
 		}
+		// ... and the receiver does not already know it: if the latest successful notification of the
+		// group before this flush lists the alert as firing, the failed flush only wanted to add
+		// something else (e.g. a resolved alert, which may since have left the group), and without a
+		// change nothing is owed before repeat_interval
+		var lastOK *sim.Attempt
+		for _, a := range r.Attempts() {
+			if a.Key() == last.Key() && a.Outcome == "ok" && a.End.Before(atts[0].Start) && (lastOK == nil || a.End.After(lastOK.End)) {
+				lastOK = a
+			}
+		}
 		still := false
 		for _, al := range last.Alerts {
 			if al.Resolved {
 				continue
 			}
 			kk := al.Labels.Key()
+			if lastOK != nil && contains(lastOK.Firing(), kk) {
+				continue
+			}
 			good := true
 			for _, x := range t.Samples(last.Tick, deadline) {
 				if !r.Alerts.SurelyFiring(kk, x) || t.PossiblySuppressed(al.Labels, ep, n, x) {
